@@ -247,14 +247,18 @@ Definition select_base (cfg : pystr) (reverse_proxy : bool) (x_script script : o
 Definition under_prefix (base p : pystr) : bool := startswith (p ++ [slash]) (base ++ [slash]).
 Definition drop_prefix (base p : pystr) : pystr := skipn (List.length base) p.
 
-(* _handle_request: sanitised path, prefix stripped when called by a reverse proxy (fixed code:
-   component boundary respected, "" -> "/") *)
+(* the prefix rule of all three reading sites (fixed code): below the prefix at a component boundary;
+   the prefix itself denotes the root "/" *)
+Definition strip_prefix (base p : pystr) : option pystr :=
+  if under_prefix base p
+  then Some (let r := drop_prefix base p in if nonempty r then r else [slash])
+  else None.
+
+(* _handle_request: sanitised path, prefix stripped when called by a reverse proxy *)
 Definition request_path (reverse_proxy : bool) (base pathinfo : pystr) : pystr :=
   let path := sanitize_path pathinfo in
   if reverse_proxy && nonempty base then
-    if under_prefix base path
-    then (let r := drop_prefix base path in if nonempty r then r else [slash])
-    else path
+    match strip_prefix base path with Some r => r | None => path end
   else path.
 
 (* the same, as the code was before fix C18-prefix-boundary (kept for the regression witness) *)
@@ -298,6 +302,16 @@ Definition get_redirect (base path pathinfo : pystr) : option (option pystr) :=
     if negb (eqs unsafe_path path) then Some (redirect_location (base ++ path)) else None
   else None.
 
+(* web/none.py Web.get (called for "/.web" and below): everything but "/.web" itself is redirected there *)
+Definition web_none_redirect (base path : pystr) : option (option pystr) :=
+  if negb (eqs path (str "/.web")) then Some (redirect_location (base ++ str "/.web")) else None.
+(* do_GET with [web] type = none: the Location of the answer when it is a redirect *)
+Definition get_location (base path pathinfo : pystr) : option (option pystr) :=
+  match get_redirect base path pathinfo with
+  | Some l => Some l
+  | None => if eqs path (str "/.web") || startswith path (str "/.web/") then web_none_redirect base path else None
+  end.
+
 (* ------------------------------------------------------------------ 2c. reading: hrefs in bodies and headers *)
 Inductive dres :=
 | DOk (path : pystr)       (* the storage path the URL denotes *)
@@ -307,6 +321,9 @@ Inductive dres :=
 | DOutside.                (* outside the model (bracketed / non-ASCII netloc) *)
 
 Definition strip_base (base p : pystr) : dres :=
+  match strip_prefix base p with Some r => DOk r | None => DSkip end.
+(* before fix C18-prefix-boundary: "" instead of "/" for the prefix itself *)
+Definition strip_base_legacy (base p : pystr) : dres :=
   if under_prefix base p then DOk (drop_prefix base p) else DSkip.
 
 (* report.py xml_report: urlsplit(href).path -> unquote -> sanitize_path -> strip base prefix
@@ -346,7 +363,7 @@ Definition netloc_with_port (scheme netloc : pystr) : option pystr :=
 (* the multiget decoding before fix C18-urlsplit *)
 Definition decode_multiget_legacy (base href : pystr) : dres :=
   match urlparse href with
-  | UOk u => strip_base base (sanitize_path (unquote (u_path u)))
+  | UOk u => strip_base_legacy base (sanitize_path (unquote (u_path u)))
   | UValueError => DRaise
   | UOutside => DOutside
   end.
@@ -376,7 +393,7 @@ Definition decode_destination_legacy (server_netloc base dest : pystr) : dres :=
       | None => DRaise
       | Some with_port =>
           if negb (eqs with_port server_netloc) then DRemote
-          else strip_base base (sanitize_path (u_path u))
+          else strip_base_legacy base (sanitize_path (u_path u))
       end
   end.
 
